@@ -10,6 +10,7 @@ import (
 	"os/exec"
 	"sort"
 	"strings"
+	"time"
 )
 
 // A Case is a list of protocol lines plus what the real code answered for each.
@@ -20,18 +21,18 @@ type Case struct {
 	Props []string // properties whose correspondence this case carries
 	// SpecProps: properties whose abstract spec the driver's "## spec" column is (default: Props)
 	SpecProps []string
-	Ops   []string
-	Impl  []string
+	Ops       []string
+	Impl      []string
 	// Exec re-executes ops on the real code (fresh state) and returns one
 	// output line per op. nil = not shrinkable.
 	Exec func(ops []string) []string
 	// Monitor checks the property directly on the real code's outputs. It returns
 	// violations found for this case (independent of the Lean model's outputs).
-	Monitor    func(ops, impl []string) []Violation
+	Monitor         func(ops, impl []string) []Violation
 	NoShrinkMonitor bool // monitor verdicts depend on generator bookkeeping that does not survive op removal
-	NonTrivial bool
-	Shape      string // canonical shape key for distinctness counting
-	Tags       []string
+	NonTrivial      bool
+	Shape           string // canonical shape key for distinctness counting
+	Tags            []string
 }
 
 type Violation struct {
@@ -69,6 +70,18 @@ type Report struct {
 	Violations  []Violation    `json:"violations"`
 	Notes       []string       `json:"notes,omitempty"`
 	Exhaustive  bool           `json:"exhaustive,omitempty"`
+}
+
+// countProp: violations already listed for a property (the lists are capped per property, so that a flood under one
+// property never hides another property's reports)
+func (r *Report) countProp(p string) int {
+	n := 0
+	for _, v := range r.Violations {
+		if v.Property == p {
+			n++
+		}
+	}
+	return n
 }
 
 func driverPath() string {
@@ -144,8 +157,14 @@ func firstSpecDiff(impl, model []string) int {
 // shrink: greedy delta-debugging over ops with predicate `bad`.
 func shrinkOps(ops []string, bad func([]string) bool) []string {
 	cur := append([]string(nil), ops...)
+	// time budget: a failing case whose re-execution is slow (calls that block until their deadline) is reported
+	// less shrunk rather than holding up the run
+	deadline := time.Now().Add(25 * time.Second)
 	for chunk := len(cur) / 2; chunk >= 1; chunk /= 2 {
 		for i := 0; i+chunk <= len(cur); {
+			if time.Now().After(deadline) {
+				return cur
+			}
 			cand := append(append([]string(nil), cur[:i]...), cur[i+chunk:]...)
 			if len(cand) > 0 && bad(cand) {
 				cur = cand
@@ -201,7 +220,7 @@ func RunCases(suite string, cases []*Case, rep *Report) {
 					continue // one (shrunk) report per property and case
 				}
 				seen[v.Property] = true
-				if c.Exec != nil && !c.NoShrinkMonitor && len(rep.Violations) < 4*maxReported {
+				if c.Exec != nil && !c.NoShrinkMonitor && rep.countProp(v.Property) < maxReported {
 					prop := v.Property
 					has := func(o []string) *Violation {
 						im := c.Exec(o)
@@ -223,7 +242,7 @@ func RunCases(suite string, cases []*Case, rep *Report) {
 						v = *w
 					}
 				}
-				if len(rep.Violations) < 4*maxReported {
+				if rep.countProp(v.Property) < 2*maxReported {
 					rep.Violations = append(rep.Violations, v)
 				} else {
 					rep.Dist["violations_not_listed"]++
@@ -249,7 +268,7 @@ func RunCases(suite string, cases []*Case, rep *Report) {
 				sp = c.Props
 			}
 			for _, p := range sp {
-				if len(rep.Violations) < 4*maxReported {
+				if rep.countProp(p) < 2*maxReported {
 					rep.Violations = append(rep.Violations, Violation{Property: p, Case: c.ID, Ops: ops,
 						What:   "real code's answer differs from the abstract specification",
 						Detail: fmt.Sprintf("op %q: impl=%q spec=%q", c.Ops[i], c.Impl[i], s)})
